@@ -199,7 +199,8 @@ def build_assume(w):
             leaf = "l" + k["id"]
             kids.append(pg.AtLeast(1, [puan.variable(leaf, (0, 1))], variable=puan.variable(k["id"], (k["lo"], k["hi"]))))
             ivd, ivde = k.get("ival_d", [0, 1]), k.get("ival_de", [0, 1])
-            if k["d"] is None and ivd[0] == ivd[1]:
+            d_const = k["d"] is not None and k["d"]["lo"] == k["d"]["hi"]
+            if not d_const and ivd[0] == ivd[1]:
                 d[leaf] = ivd[0]
             elif ivde[0] == ivde[1] and ivd[0] != ivd[1]:
                 e[leaf] = ivde[0]
